@@ -1,6 +1,7 @@
 package main
 
 import (
+	"errors"
 	"math/rand/v2"
 	"net/http"
 	"net/http/httptest"
@@ -94,7 +95,13 @@ func c01Build(r *rand.Rand, next http.Handler, weights []int, histLen int) (*rou
 	var hist []string
 	extra := []*url.URL{mustURL("http://extra1.test/"), mustURL("http://extra2.test/x")}
 	for h := 0; h < histLen; h++ {
-		switch r.IntN(5) {
+		switch r.IntN(6) {
+		case 5: // an update whose last option is rejected: the call fails
+			i := r.IntN(len(urls))
+			if err := rr.UpsertServer(urls[i], roundrobin.Weight(1+r.IntN(9)), roundrobin.Weight(-1)); err == nil {
+				return nil, nil, nil, errors.New("UpsertServer with Weight(-1) returned nil")
+			}
+			hist = append(hist, sfmt("up%d-rejected", i))
 		case 0:
 			u := pick(r, extra)
 			_ = rr.UpsertServer(u, roundrobin.Weight(1+r.IntN(5)))
@@ -134,6 +141,15 @@ func c01Build(r *rand.Rand, next http.Handler, weights []int, histLen int) (*rou
 		if r.IntN(4) == 0 { // a few selections between the final changes
 			_, _ = rr.NextServer()
 		}
+	}
+	if histLen > 0 && r.IntN(4) == 0 {
+		// last "change" is a rejected update of an existing server, preceded by some selections
+		for k := r.IntN(5); k > 0; k-- {
+			_, _ = rr.NextServer()
+		}
+		i := r.IntN(len(urls))
+		_ = rr.UpsertServer(urls[i], roundrobin.Weight(1+r.IntN(9)), roundrobin.Weight(-1))
+		hist = append(hist, sfmt("final-up%d-rejected", i))
 	}
 	return rr, urls, hist, nil
 }
